@@ -7,6 +7,7 @@ import numpy as np
 from translators import t2_pointwise
 from core.ctx import REPO
 from . import _c03_expr as X
+from . import _c03_aux as AUX
 
 ID = "C03"
 LEAN_MODULES = ["NiftyVerif.Core.Proto", "NiftyVerif.Model.Expr", "NiftyVerif.Model.ExprIO", "NiftyVerif.Props.C03Ptw", "NiftyVerif.Props.C03", "NiftyVerif.Props.C03Adj"]
@@ -23,7 +24,9 @@ OBLIGATIONS = (["NiftyVerif.C03.ptw_hval_eq_val"] + ["NiftyVerif.C03.ptw_hasDeri
 RULE = ("(1) T2: every ptw_dict entry on a float grid over its valid range incl. kinks (value, helper value, derivative) "
         "vs the regenerated Lean definitions; (2) generated operator trees (<=16 nodes; var/add/sub/mul/scale/addc/mulc/"
         "ptw/lin/sum/vdot/getKey/putKey/chain/sqnorm/quad/gauss) over single and multi-domains, dyadic inputs, "
-        "with/without want_metric, built with the REAL operators; non-trivial = tree contains a non-linear node; "
+        "with/without want_metric, built with the REAL operators and re-evaluated with Linearization arithmetic and complex "
+        "inputs; (3) auxiliary stream outside the model (Linearization.outer, MultiLinearEinsum/LinearEinsum incl. static "
+        "fields, integrate) against NumPy references; non-trivial = tree contains a non-linear node; "
         "distinct by canonical (tree, input, flag)")
 TRUSTED_BASE = [
     "Lean 4.33 kernel + Mathlib real analysis; axioms propext/Classical.choice/Quot.sound only (audited every run)",
@@ -314,6 +317,8 @@ def embed_cols(J, dsub, dall):
 
 def oracle(case):
     """the property on the REAL code only"""
+    if "aux" in case:
+        return AUX.oracle(case)
     if case.get("kind") == "ptw" or case.get("op") == "ptw":
         names, meta = names_meta()
         g, P = ptw_grid(case["f"], __import__("random").Random(0))
@@ -428,6 +433,11 @@ def complex_oracle(case):
 
 
 def shrink(case):
+    if "aux" in case:
+        for key in ("xa", "xb", "x"):
+            if key in case and len(case[key]) > 1:
+                yield dict(case, **{key: case[key][:-1]})
+        return
     if "expr" not in case:
         return
     t = case["expr"]
@@ -465,8 +475,18 @@ def run(ctx):
     cases = []
     import glob, json, os
     from core.ctx import VERIF
+    aux = []
     for pth in sorted(glob.glob(os.path.join(VERIF, "corpus", ID, "*.json"))):
-        cases.append(json.load(open(pth))["case"])
+        c = json.load(open(pth))["case"]
+        (aux if "aux" in c else cases).append(c)
+    # anchored mechanisms outside the Lean model (Linearization.outer, einsum.py, integrate): oracle on the real code
+    aux += AUX.gen(ctx.rng, ctx.n(120, 1500))
+    for c in aux:
+        ctx.stat("aux:" + c["aux"])
+        ctx.case(c, nontrivial=True)
+        res = AUX.oracle(c)
+        if res:
+            ctx.counterexample(c, *res)
     ntree = ctx.n(220, 2500)
     while len(cases) < ntree:
         cases.append(gen.case(max_nodes=ctx.n(16, 20)))
